@@ -22,10 +22,10 @@ func init() {
 }
 
 type nodeField struct {
-	Path  string // dotted field path from the receiver struct
-	Kind  string // "ref" (interface or pointer), "slice" (slice of nodes), "valslice" (slice of node structs by value), "val" (node struct by value)
-	Type  types.Type
-	Index []int
+	Path   string // dotted field path from the receiver struct
+	Kind   string // "ref" (interface or pointer), "slice" (slice of nodes), "valslice" (slice of node structs by value), "val" (node struct by value)
+	Type   types.Type
+	Index  []int
 	Guards []string // pointer-typed prefixes that must be non-nil for the field to exist
 }
 
@@ -141,12 +141,12 @@ func isLeafName(e *Engine, t types.Type, nodeIface *types.Interface, depth int) 
 type covMap map[string]string // field path -> SMT condition under which all its nodes are in the slice
 
 type coverAnalysis struct {
-	e      *Engine
-	fr     *Frame
-	recv   ssa.Value // the alloc holding the by-value receiver, or the pointer receiver parameter
-	cov    map[ssa.Value]covMap
-	foreign []string
-	summaries map[*ssa.Function]bool
+	e            *Engine
+	fr           *Frame
+	recv         ssa.Value // the alloc holding the by-value receiver, or the pointer receiver parameter
+	cov          map[ssa.Value]covMap
+	foreign      []string
+	summaries    map[*ssa.Function]bool
 	paramAsField *ssa.Parameter
 }
 
@@ -838,10 +838,10 @@ func runC14(e *Engine, tier Tier) *PropRun {
 	}
 	return &PropRun{
 		Results: rs, FUC: fucList(rs),
-		Claim: func(o *Obligation) bool { return o.Kind == "schema" },
+		Claim:       func(o *Obligation) bool { return o.Kind == "schema" },
 		Explanation: fmt.Sprintf("Schema children_cover(T.f) for every struct type T of package ast with a Children() method (%d types) and every field f of T that can hold a node (%d fields; enumerated from go/types: interfaces and pointers implementing Node, slices of those, slices of node structs by value, node structs by value, recursively through plain structs): on every path through T.Children(), f non-empty implies the result contains all nodes of f. The set view of the result slice is a ghost attribute threaded through the symbolic execution (append keeps and adds, phi merges under the VC's edge conditions, helpers by verified summary); loops are admitted only through the range-append template (every iteration appends element i, or the address of a copy allocated in that iteration). The converse (only own fields are returned) is children_only_own.", types_, fields),
-		NotCovered: []string{"Walk/Inspect recursion itself (one unfolding: Walk visits node then every element of Children(); trusted by reading the 20-line function)", "trees deeper than the stack allows (C02)", "pointer-to-plain-struct containers are required to be returned or flattened but their inner fields are not followed"},
+		NotCovered:  []string{"Walk/Inspect recursion itself (one unfolding: Walk visits node then every element of Children(); trusted by reading the 20-line function)", "trees deeper than the stack allows (C02)", "pointer-to-plain-struct containers are required to be returned or flattened but their inner fields are not followed"},
 		Assumptions: []string{"range-append loop template: a loop over the whole slice that appends element i (or the address of a per-iteration copy) on every iteration covers the slice"},
-		Extra: map[string]any{"node_types": types_, "node_holding_fields": fields},
+		Extra:       map[string]any{"node_types": types_, "node_holding_fields": fields},
 	}
 }
